@@ -2,7 +2,7 @@
    lines) matches the source file.  Proofs: ProvenanceFacts.v; the entries of
    a parsed conventional file are given by Properties_C02.C02_parse. *)
 From Coq Require Import String Lia List.
-From Econf Require Import Bytes BytesFacts MapSpec KeyfileFacts Grammar LineBase ProvenanceFacts.
+From Econf Require Import Bytes BytesFacts MapSpec KeyfileFacts Grammar LineBase ProvenanceFacts LayeredSpec LayeredFactsB.
 Local Open Scope N_scope.
 
 (* a comment block of any length directly before a key line, the key line and
@@ -55,6 +55,26 @@ Print Assumptions C17_path_relative.
 Theorem C17_path_merged : forall a b, get_path (merge_model a b) = [].
 Proof. exact path_of_merge. Qed.
 Print Assumptions C17_path_merged.
+(* through the real entry point, on any tree: the object of a single file carries the name read_file was
+   handed (real_name = get_absolute_path), which always starts with '/': the name itself when it was
+   absolute, its normalised form below the working directory when it was relative and no link *)
+Theorem C17_readFile_path_absolute : forall t g cb p dl cm kf,
+  r2_obj (read_file_api t g cb p dl cm) = Some kf ->
+  get_path kf = real_name t p /\ exists r, get_path kf = 47 :: r.
+Proof. exact read_file_api_path. Qed.
+Print Assumptions C17_readFile_path_absolute.
+Theorem C17_real_name_of_absolute : forall t p, real_name t (47 :: p) = 47 :: p.
+Proof. exact real_name_of_absolute. Qed.
+Print Assumptions C17_real_name_of_absolute.
+Theorem C17_real_name_of_relative : forall t c p,
+  c <> 47 -> str_eqb (squeeze (c :: p)) dev_null = false ->
+  match tlookup t (squeeze (c :: p)) with Some (NLink _ _ _) => False | _ => True end ->
+  real_name t (c :: p) = squeeze (c :: p).
+Proof. exact real_name_of_relative_file. Qed.
+Print Assumptions C17_real_name_of_relative.
+Example C17_relative_demo :
+  real_name [(bs "/rel/dir/f.conf", NFile (bs "k=1") 0 0)] (bs "./rel//dir/../dir/f.conf") = bs "/rel/dir/f.conf".
+Proof. vm_compute. reflexivity. Qed.
 
 Example C17_demo :
   let ls := [LKey (mkKL [] (bs "a") [] (Some 61) [] (VPlain (bs "0")) [] None); LBlank [];
